@@ -625,4 +625,9 @@ VARIANTS += [
     silent('r10-twin-editor-crc-fastpath', ['C16', 'C20', 'C05'], [(ED, "import pathlib\n", "import pathlib\nimport zlib\n"), (ED, "        yield file\n\n        updated_text = printer.print_model(file, io.StringIO()).getvalue()\n        if updated_text != text:", "        checksum = zlib.crc32(text.encode())\n\n        yield file\n\n        updated_text = printer.print_model(file, io.StringIO()).getvalue()\n        if zlib.crc32(updated_text.encode()) != checksum or updated_text != text:")]),
     fire('r10-editor-texts-on-instance', ['C16'], [(ED, "        texts = dict[str, str]()\n", "        self._texts = texts = dict[str, str]()\n"), (ED, "        for current_path in set(texts) - set(files):", "        for current_path in set(self._texts) - set(files):"), (ED, "            if updated_text != texts.get(current_path):", "            if updated_text != self._texts.get(current_path):")], 'ED-SEM'),
     silent('r10-twin-editor-texts-also-on-instance', ['C16'], [(ED, "        texts = dict[str, str]()\n", "        self._last_texts = texts = dict[str, str]()\n")]),
+    fire('r10-escape-quote-after-backslash', ['C12', 'C09'], [('autobean_refactor/models/escaped_string.py', "    __ESCAPE_PATTERN = re.compile(r'[\\\\\"]')", "    __ESCAPE_PATTERN = re.compile(r'\\\\|(?<!\\\\)\"')")], 'ESC-RT'),
+    silent('r10-twin-escape-pattern-alternation', ['C12', 'C09', 'C15'], [('autobean_refactor/models/escaped_string.py', "    __ESCAPE_PATTERN = re.compile(r'[\\\\\"]')", "    __ESCAPE_PATTERN = re.compile(r'\\\\|\"')")]),
+    fire('r10-number-format-abs', ['C12', 'C09'], [('autobean_refactor/models/number.py', "        return format(value, 'f')", "        return format(abs(value), 'f')")], 'NUM-RT'),
+    fire('r10-number-format-str-unless-positive-exponent', ['C12', 'C15'], [('autobean_refactor/models/number.py', "        return format(value, 'f')", "        if value.as_tuple().exponent > 0:\n            return format(value, 'f')\n        return str(value)")], 'NUM-RT'),
+    silent('r10-twin-number-format-fstring', ['C12', 'C09', 'C15'], [('autobean_refactor/models/number.py', "        return format(value, 'f')", "        return f'{value:f}'")]),
 ]
